@@ -155,8 +155,8 @@ class World(Domain):
             a = t.attrs["args"]
             return ("ARRAY", self.sort_of_tyobj(a[0]), self.sort_of_tyobj(a[1]))
         if c == "_FunctionType":
-            return ("FUN", self.sort_of_tyobj(t.attrs["return_type"]),
-                    tuple(self.sort_of_tyobj(p) for p in t.attrs["param_types"]))
+            return ("FUN", self.sort_of_tyobj(t.attrs["_return_type"]),
+                    tuple(self.sort_of_tyobj(p) for p in t.attrs["_param_types"]))
         if c == "PySMTType":
             return ("CUSTOM", t.attrs.get("basename"))
         raise Unsupported("sort of %r" % (t,))
